@@ -1,5 +1,8 @@
 import Spine.RegistryMore
 import Spine.RegObjThm
+import Spine.RegData
+import Spine.RegWire
+import Spine.RegEvents
 /-!
 # C08 — subscriptions: exact registry and exactly-once notification fan-out
 
@@ -19,9 +22,9 @@ Status on the code as written: the grant clause and the fan-out clause are REFUT
 announcement after the client sent data (`c08_granted_iff_refuted`, `c08_double_subscription_refuted`) and proved
 for histories without one (`…_partial`); the delete clause is REFUTED across peers (`c08_delete_by_device_refuted`)
 and proved when the device part is omitted or the requester's own (`c08_delete_partial`). Everything is proved at full
-strength for the repaired members. Not covered by a theorem (harness only): that SetData, UpdateData and accepted
-remote writes all reach `notifyTargets` with the changed function's data (the three data-change paths of the composed
-world), and the events.
+strength for the repaired members. The three data-change paths (SetData, UpdateData, accepted remote write) are the
+composed model `Spine.RegData` (function-data store + registry): `c08_change_*`; its static face is regenerated from
+the source (`C08Gen.c08gen_three_paths_store_then_notify_once` etc.).
 -/
 namespace Spine.Props.C08
 open Spine
@@ -228,6 +231,157 @@ theorem c08_fanout_once_partial (evs : List RegObj.Ev) (hn : ∀ e ∈ evs, e.is
 example : RegObj.fanout (RegObj.run false [.sub 1 (1, 1) (1, 1), .data 1 (1, 1) 5, .reannounce 1 1, .sub 1 (1, 1) (1, 1)]) (1, 1)
     = [(1, (1, 1))] := by decide
 
+/-! ## clause 3, second half: "… carrying the changed function's data", "through SetData, UpdateData and accepted
+    remote writes" — composed model `Spine.RegData` (function-data store × registry) -/
+
+def d0 : RegData.St :=
+  { reg := Reg.run {} loc rem (hist ++ [.bind 2 [1] 1 [1] 1 1]),
+    store := [(⟨[1], 1, 7⟩, 0), (⟨[1], 2, 8⟩, 0)], writable := [⟨[1], 1, 7⟩] }
+
+/-- On each of the three paths an ACCEPTED change of function `k.fn` of feature (`k.ent`, `k.feat`) is notified through
+    the one fan-out — `Reg.delivered`, of which the fan-out theorems above speak: one notification per registry entry on
+    that feature — from the changed feature, carrying the changed function and the data THE STORE HOLDS FOR IT AFTER
+    THE CHANGE; the registry is untouched. -/
+theorem c08_change_notifies_with_stored_data (d : RegData.St) (fails : Nat → Bool) (path : RegData.Path) (k : RegData.FKey)
+    (nv : Nat) (h : (RegData.change d fails path k nv).2.1 = true) :
+    (RegData.change d fails path k nv).2.2 =
+      (Reg.delivered d.reg fails k.ent k.feat).map (fun t => ⟨t.1, t.2.1, t.2.2, k.ent, k.feat, k.fn, nv⟩) ∧
+    RegData.lookup (RegData.change d fails path k nv).1.store k = some nv ∧
+    (RegData.change d fails path k nv).1.reg = d.reg := by
+  have := RegData.change_spec d fails path k nv
+  exact ⟨(this.2.1 h).2, (this.2.1 h).1, this.1⟩
+
+/-- … "and to nobody else", all connections healthy: a (connection, client feature) is sent a notification exactly when
+    the registry holds an entry of it on the changed feature; every notification names the changed feature as source and
+    carries the changed function with its stored data. -/
+theorem c08_change_exactly_the_subscribers (d : RegData.St) (path : RegData.Path) (k : RegData.FKey) (nv : Nat)
+    (h : (RegData.change d (fun _ => false) path k nv).2.1 = true) (n : RegData.Note) :
+    n ∈ (RegData.change d (fun _ => false) path k nv).2.2 ↔
+      (∃ e ∈ d.reg.subs, e.sEnt = k.ent ∧ e.sFeat = k.feat ∧ n.peer = e.peer ∧ n.cEnt = e.cEnt ∧ n.cFeat = e.cFeat) ∧
+      n.sEnt = k.ent ∧ n.sFeat = k.feat ∧ n.fn = k.fn ∧ n.data = nv := by
+  rw [(c08_change_notifies_with_stored_data d _ path k nv h).1]
+  have hd : Reg.delivered d.reg (fun _ => false) k.ent k.feat = Reg.notifyTargets d.reg k.ent k.feat :=
+    RegData.sendLoop_healthy _
+  rw [hd]
+  simp only [List.mem_map]
+  constructor
+  · rintro ⟨t, ht, rfl⟩
+    obtain ⟨e, he, h1, h2, rfl⟩ := (Reg.mem_notifyTargets d.reg k.ent k.feat t).mp ht
+    exact ⟨⟨e, he, h1, h2, rfl, rfl, rfl⟩, rfl, rfl, rfl, rfl⟩
+  · rintro ⟨⟨e, he, h1, h2, hp, hce, hcf⟩, hs, hf, hfn, hdt⟩
+    refine ⟨(e.peer, e.cEnt, e.cFeat), (Reg.mem_notifyTargets d.reg k.ent k.feat _).mpr ⟨e, he, h1, h2, rfl⟩, ?_⟩
+    cases n; simp_all
+
+/-- … one per registry entry on the feature (all connections healthy) … -/
+theorem c08_change_one_per_entry (d : RegData.St) (path : RegData.Path) (k : RegData.FKey) (nv : Nat)
+    (h : (RegData.change d (fun _ => false) path k nv).2.1 = true) :
+    (RegData.change d (fun _ => false) path k nv).2.2.length =
+      (d.reg.subs.filter fun e => e.sEnt = k.ent && e.sFeat = k.feat).length := by
+  rw [(c08_change_notifies_with_stored_data d _ path k nv h).1, List.length_map, ← Reg.notifyTargets_length]
+  unfold Reg.delivered
+  rw [RegData.sendLoop_healthy]
+
+/-- … and, for the registry reached by any history of any member of the family, nobody is notified twice. -/
+theorem c08_change_nobody_twice (c : Reg.Cfg) (loc : List Reg.Feat) (rem : Nat → List Reg.Feat) (ops : List Reg.Op)
+    (d : RegData.St) (hd : d.reg = Reg.run c loc rem ops) (fails : Nat → Bool) (path : RegData.Path) (k : RegData.FKey)
+    (nv : Nat) : ((RegData.change d fails path k nv).2.2.map fun n => (n.peer, n.cEnt, n.cFeat)).Nodup := by
+  have hs := RegData.change_spec d fails path k nv
+  cases hok : (RegData.change d fails path k nv).2.1 with
+  | false => rw [(hs.2.2 hok).2]; exact List.nodup_nil
+  | true =>
+    rw [(hs.2.1 hok).2, List.map_map]
+    have : ((fun n : RegData.Note => (n.peer, n.cEnt, n.cFeat)) ∘ RegData.mkNote k.ent k.feat (k.fn, nv)) = id := by
+      funext t; rfl
+    rw [this, List.map_id, hd]
+    have hn := Reg.notifyTargets_nodup _ (Reg.history_subInv c loc rem ops) k.ent k.feat
+    exact List.Nodup.sublist (RegData.sendLoop_sublist fails _) hn
+
+/-- The three paths ALIKE: whichever of the three paths a change comes by, once accepted the notifications are the
+    same list (same subscribers, same order, same cmd) and the store holds the same data. -/
+theorem c08_change_paths_alike (d : RegData.St) (fails : Nat → Bool) (p q : RegData.Path) (k : RegData.FKey) (nv : Nat)
+    (hp : (RegData.change d fails p k nv).2.1 = true) (hq : (RegData.change d fails q k nv).2.1 = true) :
+    (RegData.change d fails p k nv).2.2 = (RegData.change d fails q k nv).2.2 ∧
+    RegData.lookup (RegData.change d fails p k nv).1.store k = RegData.lookup (RegData.change d fails q k nv).1.store k := by
+  have a := c08_change_notifies_with_stored_data d fails p k nv hp
+  have b := c08_change_notifies_with_stored_data d fails q k nv hq
+  exact ⟨a.1.trans b.1.symm, a.2.1.trans b.2.1.symm⟩
+
+/-- A change is accepted exactly when the feature has the function (and, for a remote write, the function is
+    writable); a REFUSED change notifies nobody and leaves store and registry as they were. -/
+theorem c08_change_accepted_iff (d : RegData.St) (fails : Nat → Bool) (path : RegData.Path) (k : RegData.FKey) (nv : Nat) :
+    ((RegData.change d fails path k nv).2.1 = true ↔
+      (RegData.lookup d.store k).isSome = true ∧ (path = .remoteWrite → d.writable.contains k = true)) ∧
+    ((RegData.change d fails path k nv).2.1 = false →
+      (RegData.change d fails path k nv).1 = d ∧ (RegData.change d fails path k nv).2.2 = []) := by
+  refine ⟨?_, (RegData.change_spec d fails path k nv).2.2⟩
+  have hs := (RegData.updateData_spec d path k nv).1
+  unfold RegData.change
+  generalize RegData.updateData d path k nv = u at hs
+  obtain ⟨d', ok⟩ := u
+  cases ok with
+  | false => simpa using hs
+  | true =>
+    simp only at hs ⊢
+    split <;> simpa using hs
+
+/-- A write datagram is applied exactly when its source feature is announced by the sender, that very client is bound
+    to the addressed server feature, the feature has the function and the function is writable; an applied write
+    notifies exactly as `SetData` of the same data does; a write that is not applied notifies nobody and changes
+    nothing. -/
+theorem c08_remote_write (d : RegData.St) (fails : Nat → Bool) (p : Nat) (cEnt : List Nat) (cFeat : Nat) (k : RegData.FKey)
+    (nv : Nat) :
+    ((RegData.remoteWrite d fails p cEnt cFeat k nv).2.1 = .applied ↔
+      (Reg.findF (d.reg.rem p) cEnt cFeat).isSome = true ∧ d.reg.binds.any (·.is p cEnt cFeat k.ent k.feat) = true ∧
+      (RegData.lookup d.store k).isSome = true ∧ d.writable.contains k = true) ∧
+    ((RegData.remoteWrite d fails p cEnt cFeat k nv).2.1 = .applied →
+      (RegData.remoteWrite d fails p cEnt cFeat k nv).2.2 = (RegData.change d fails .setData k nv).2.2) ∧
+    ((RegData.remoteWrite d fails p cEnt cFeat k nv).2.1 ≠ .applied →
+      (RegData.remoteWrite d fails p cEnt cFeat k nv).1 = d ∧ (RegData.remoteWrite d fails p cEnt cFeat k nv).2.2 = []) := by
+  have hacc := c08_change_accepted_iff d fails .remoteWrite k nv
+  have hset := c08_change_accepted_iff d fails .setData k nv
+  unfold RegData.remoteWrite
+  by_cases h1 : (Reg.findF (d.reg.rem p) cEnt cFeat).isNone = true
+  · have : (Reg.findF (d.reg.rem p) cEnt cFeat).isSome = false := by
+      cases hx : Reg.findF (d.reg.rem p) cEnt cFeat <;> simp_all
+    simp [h1, this]
+  · have h1' : (Reg.findF (d.reg.rem p) cEnt cFeat).isSome = true := by
+      cases hx : Reg.findF (d.reg.rem p) cEnt cFeat <;> simp_all
+    by_cases h2 : d.reg.binds.any (·.is p cEnt cFeat k.ent k.feat) = true
+    · simp only [h1, h2, Bool.false_eq_true, if_false, Bool.not_true]
+      generalize hc : RegData.change d fails .remoteWrite k nv = r at hacc
+      obtain ⟨d', ok, ns⟩ := r
+      cases ok with
+      | true =>
+        have hw := hacc.1.mp rfl
+        have hsok : (RegData.change d fails .setData k nv).2.1 = true := hset.1.mpr ⟨hw.1, by simp⟩
+        have al := c08_change_paths_alike d fails .remoteWrite .setData k nv (by rw [hc]) hsok
+        rw [hc] at al
+        simp only at al
+        have hwr := hw.2 rfl
+        simp only [List.contains_iff_mem] at hwr
+        simp [h1', hw.1, hwr, al.1]
+      | false =>
+        have hno := hacc.2 rfl
+        simp only at hno
+        have : ¬ ((RegData.lookup d.store k).isSome = true ∧ d.writable.contains k = true) := by
+          intro hh; have := hacc.1.mpr ⟨hh.1, fun _ => hh.2⟩; simp at this
+        simp only [h1', true_and, h2]
+        refine ⟨⟨by simp, fun hh => (this hh).elim⟩, by simp, fun _ => ⟨hno.1, trivial⟩⟩
+    · simp [h1, h2]
+
+/-- non-vacuity (peers 1 and 2 subscribed to [1]/1, peer 1 also to [1]/2; peer 2 bound to [1]/1): SetData and UpdateData
+    of function 7 notify both peers with the new data, a write of the bound client too; a write to the function that
+    is not writable, a write of an unbound client, a change of a function the feature does not have notify nobody -/
+example :
+    (RegData.change d0 (fun _ => false) .setData ⟨[1], 1, 7⟩ 42).2.2 = [⟨1, [1], 1, [1], 1, 7, 42⟩, ⟨2, [1], 1, [1], 1, 7, 42⟩] ∧
+    (RegData.change d0 (fun _ => false) .updateData ⟨[1], 1, 7⟩ 43).2.2 = [⟨1, [1], 1, [1], 1, 7, 43⟩, ⟨2, [1], 1, [1], 1, 7, 43⟩] ∧
+    (RegData.remoteWrite d0 (fun _ => false) 2 [1] 1 ⟨[1], 1, 7⟩ 44).2 =
+      (.applied, [⟨1, [1], 1, [1], 1, 7, 44⟩, ⟨2, [1], 1, [1], 1, 7, 44⟩]) ∧
+    (RegData.remoteWrite d0 (fun _ => false) 1 [1] 1 ⟨[1], 1, 7⟩ 45).2 = (.denied, []) ∧
+    (RegData.change d0 (fun _ => false) .remoteWrite ⟨[1], 2, 8⟩ 46).2 = (false, []) ∧
+    (RegData.change d0 (fun _ => false) .setData ⟨[1], 1, 9⟩ 47).2 = (false, []) ∧
+    (RegData.change d0 (fun p => p = 1) .setData ⟨[1], 1, 7⟩ 48).2.2 = [⟨2, [1], 1, [1], 1, 7, 48⟩] := by decide
+
 /-! ## clause 4: the list reported for a peer contains exactly that peer's entries, each with a distinct id -/
 
 /-- The list reported for a peer (`Subscriptions(peer)`, also what a read of the subscription data is answered
@@ -258,5 +412,78 @@ example : (Reg.run {} loc rem hist).subNum = 4 ∧ (Reg.subsOf (Reg.run {} loc r
 /-- non-vacuity: ids after a refused duplicate (the id is drawn before the duplicate check) and a delete -/
 example : ((Reg.run {} loc rem (hist ++ [.unsub 2 0 [1] 1 [1] 1, .sub 2 [1] 1 [1] 1 1])).subs.map (·.id)) = [1, 3, 5] ∧
     (Reg.subsOf (Reg.run {} loc rem hist) 2).map (·.id) = [2] := by decide
+
+/-! ### … the list sent over the wire (reply to a read of the subscription data: `processReadSubscriptionData`) -/
+
+/-- The list sent to peer `p` over the wire IS `Subscriptions(p)`: what the peer reads out of the reply is the
+    manager's list of that peer — same length, same order, every wire entry carrying ITS OWN registry entry's id, server
+    address and client address (model `Spine.RegWire`, the member the regenerated table `WireReply` selects). -/
+theorem c08_wire_list_is_subscriptions (s : Reg.St) (p : Nat) :
+    (RegWire.readSubs false s p).map RegWire.decode = Reg.subsOf s p ∧
+    (∀ i : Nat, (RegWire.readSubs false s p)[i]? = ((Reg.subsOf s p)[i]?).map RegWire.entryOf) :=
+  ⟨RegWire.wire_eq_list _, RegWire.wire_entrywise _⟩
+
+/-- … exactly that peer's entries: every wire entry is an entry of the registry held by `p`'s connection, and every
+    such entry is on the wire. -/
+theorem c08_wire_list_exact (s : Reg.St) (p : Nat) (w : RegWire.WEntry) :
+    w ∈ RegWire.readSubs false s p ↔ ∃ e ∈ s.subs, e.peer = p ∧ w = RegWire.entryOf e := by
+  simp only [RegWire.readSubs, RegWire.buildReply, Bool.false_eq_true, if_false, List.mem_map, Reg.subsOf, List.mem_filter,
+    decide_eq_true_eq]
+  constructor
+  · rintro ⟨e, ⟨he, hp⟩, rfl⟩; exact ⟨e, he, hp, rfl⟩
+  · rintro ⟨e, he, hp, rfl⟩; exact ⟨e, ⟨he, hp⟩, rfl⟩
+
+/-- … each with a distinct id, on the wire too (every member, every history). -/
+theorem c08_wire_ids_distinct (c : Reg.Cfg) (loc : List Reg.Feat) (rem : Nat → List Reg.Feat) (ops : List Reg.Op) (p : Nat) :
+    ((RegWire.readSubs false (Reg.run c loc rem ops) p).map (·.id)).Nodup := by
+  rw [RegWire.readSubs, RegWire.wire_ids]
+  exact List.Nodup.sublist (List.Sublist.map _ List.filter_sublist) (c08_ids_distinct c loc rem ops)
+
+/-- REFUTED for the member that shares one id variable between the entries of the reply (a seeded regression; the
+    regenerated table `WireReply` excludes it for the tree under test): two subscriptions go out under one id. -/
+theorem c08_wire_aliased_id_refuted :
+    (RegWire.buildReply true [⟨1, [1], 1, 1, [1], 1⟩, ⟨2, [1], 2, 1, [1], 2⟩]).map (·.id) = [2, 2] :=
+  RegWire.wire_alias_refuted
+
+/-- non-vacuity: peer 1 holds two subscriptions (ids 1 and 3), peer 2 one (id 2); each reads its own over the wire -/
+example : RegWire.readSubs false (Reg.run {} loc rem hist) 1 = [⟨1, [1], 1, 1, [1], 1⟩, ⟨3, [1], 2, 1, [1], 3⟩] ∧
+    RegWire.readSubs false (Reg.run {} loc rem hist) 2 = [⟨2, [1], 1, 2, [1], 1⟩] := by decide
+
+/-! ## subscription-change events of the subscribe / unsubscribe calls (model `Spine.RegEv`) -/
+
+/-- A subscribe call publishes an add event — naming the requesting device, the client feature and the server
+    feature — exactly when it is granted, and then exactly that pair was appended to the registry under the new id; a
+    refused call publishes nothing and changes nothing (every state, every member). -/
+theorem c08_add_event_iff_granted (c : Reg.Cfg) (s : Reg.St) (p : Nat) (ce : List Nat) (cf : Nat) (se : List Nat) (sf t : Nat) :
+    (RegEv.callEvents c s (.sub p ce cf se sf t) = [.add (p, ce, cf, se, sf)] ↔ (Reg.addSub s p ce cf se sf t).2 = true) ∧
+    ((Reg.addSub s p ce cf se sf t).2 = true →
+      ∃ e, (Reg.addSub s p ce cf se sf t).1.subs = s.subs ++ [e] ∧ Reg.key e = (p, ce, cf, se, sf) ∧ e.id = s.subNum + 1) ∧
+    ((Reg.addSub s p ce cf se sf t).2 = false →
+      RegEv.callEvents c s (.sub p ce cf se sf t) = [] ∧ (Reg.addSub s p ce cf se sf t).1.subs = s.subs) :=
+  RegEv.add_event c s p ce cf se sf t
+
+/-- Repaired member, the registry reached by ANY history: an unsubscribe call publishes a remove event exactly when it
+    succeeds; exactly ONE entry left the registry then, the pair the event names; a call without event left the
+    registry as it was. -/
+theorem c08_remove_event_exact (loc : List Reg.Feat) (rem : Nat → List Reg.Feat) (ops : List Reg.Op) (p cd : Nat)
+    (ce : List Nat) (cf : Nat) (se : List Nat) (sf : Nat) :
+    let s := Reg.run Reg.Cfg.clean loc rem ops
+    (RegEv.callEvents Reg.Cfg.clean s (.unsub p cd ce cf se sf) = [.remove (p, ce, cf, se, sf)] ↔
+      (Reg.delSub Reg.Cfg.clean s p cd ce cf se sf).2 = true) ∧
+    ((Reg.delSub Reg.Cfg.clean s p cd ce cf se sf).2 = true →
+      (Reg.delSub Reg.Cfg.clean s p cd ce cf se sf).1.subs = s.subs.filter (fun e => Reg.key e ≠ (p, ce, cf, se, sf)) ∧
+      (p, ce, cf, se, sf) ∈ s.subs.map Reg.key ∧
+      (Reg.delSub Reg.Cfg.clean s p cd ce cf se sf).1.subs.length + 1 = s.subs.length) ∧
+    ((Reg.delSub Reg.Cfg.clean s p cd ce cf se sf).2 = false →
+      RegEv.callEvents Reg.Cfg.clean s (.unsub p cd ce cf se sf) = [] ∧
+      (Reg.delSub Reg.Cfg.clean s p cd ce cf se sf).1.subs = s.subs) :=
+  RegEv.remove_event _ (Reg.history_subInv Reg.Cfg.clean loc rem ops).keys p cd ce cf se sf
+
+/-- non-vacuity: a granted request, a refused duplicate, a successful delete, a delete of a missing pair -/
+example :
+    RegEv.callEvents {} s0 (.sub 1 [1] 1 [1] 1 1) = [.add (1, [1], 1, [1], 1)] ∧
+    RegEv.callEvents {} (Reg.run {} loc rem hist) (.sub 1 [1] 1 [1] 1 1) = [] ∧
+    RegEv.callEvents Reg.Cfg.clean (Reg.run Reg.Cfg.clean loc rem hist) (.unsub 2 0 [1] 1 [1] 1) = [.remove (2, [1], 1, [1], 1)] ∧
+    RegEv.callEvents Reg.Cfg.clean (Reg.run Reg.Cfg.clean loc rem hist) (.unsub 2 0 [1] 3 [1] 2) = [] := by decide
 
 end Spine.Props.C08
